@@ -26,7 +26,7 @@ theorem addVote_verdict (p : Pool) (v : Vote) (hs : v.signer < p.epoch.n) :
 /-- `slot_bounds`: a vote is refused as out of bounds exactly below the pruning watermark or
     `2 * SLOTS_PER_EPOCH` or more above the highest finalized slot. -/
 theorem slot_bounds (p : Pool) (v : Vote) :
-    ((p.addVote v).2.1 = .oob ↔ (v.slot < p.fin.firstUnpruned ∨ v.slot ≥ p.fin.highestFinalized + 2 * Gen.SLOTS_PER_EPOCH))
+    ((p.addVote v).2.1 = .oob ↔ (v.slot < p.fin.first ∨ v.slot ≥ p.fin.highest + 2 * Gen.SLOTS_PER_EPOCH))
       ∨ v.signer ≥ p.epoch.n := by
   by_cases hs : v.signer < p.epoch.n
   · left
@@ -40,7 +40,7 @@ theorem slot_bounds (p : Pool) (v : Vote) :
         · cases h
         · split at h <;> cases h
     · intro h
-      have : (decide (v.slot < p.fin.firstUnpruned) || decide (v.slot ≥ p.fin.highestFinalized + 2 * Gen.SLOTS_PER_EPOCH)) = true := by
+      have : (decide (v.slot < p.fin.first) || decide (v.slot ≥ p.fin.highest + 2 * Gen.SLOTS_PER_EPOCH)) = true := by
         simpa using h
       simp [this]
   · right; omega
